@@ -170,6 +170,9 @@ Definition op_ok (S : tree) (o : op) : bool :=
   | SetV _ kp k (Leaf _) => leaf_in S (kp ++ [k])
   | SetDefault _ kp k (Some (Leaf _)) => leaf_in S (kp ++ [k])
   | SetDefault _ kp k None => leaf_in S (kp ++ [k])
+  | Clear _ _ => true
+  | Update _ kp kvs =>
+      forallb (fun kv => match snd kv with Leaf _ => leaf_in S (kp ++ [fst kv]) | Node _ => false end) kvs
   | LoadDefaults t | LoadOverrides t | LoadCollection t => level_okb S t
   | _ => false
   end.
@@ -193,6 +196,16 @@ Definition events_of (c : cfg) (o : op) : list event :=
       match nav fl (c_cache c) kp with
       | Ok d => if has k d then []
                 else [JSet (kp ++ [k]) (match dflt with Some v => v | None => Leaf VNone end)]
+      | Err _ => []
+      end
+  | Clear fl kp =>
+      match nav fl (c_cache c) kp with
+      | Ok d => map (fun k => JDel (kp ++ [k])) (keys d)
+      | Err _ => []
+      end
+  | Update fl kp kvs =>
+      match nav fl (c_cache c) kp with
+      | Ok _ => map (fun kv => JSet (kp ++ [fst kv]) (snd kv)) kvs
       | Err _ => []
       end
   | _ => []
@@ -285,6 +298,95 @@ Proof.
   - destruct Hc' as [ -> | [ -> | -> ] ]; destruct c; exact HI.
 Qed.
 
+(** ** clear() and update(): several marks / writes below the same section *)
+Definition clear_upto (D : dict) (kp : path) : Prop :=
+  forall q r, kp = q ++ r -> masked D q = false.
+
+Lemma clear_upto_above D kp k : clear_upto D kp -> clear_above D (kp ++ [k]).
+Proof.
+  intros H q r E Hr. destruct (app_snoc_prefix q r kp k E Hr) as [r' E']. eapply H; eassumption.
+Qed.
+
+Lemma nav_clear_upto S c J fl kp d' : is_node S = true -> good S c J ->
+  nav fl (c_cache c) kp = Ok d' -> clear_upto (c_dels c) kp.
+Proof.
+  intros HS HG Hn q r E.
+  destruct (good_view S c J HS HG) as [X [_ [_ [_ Sd]]]].
+  pose proof (nav_shapes fl kp _ _ Hn q r E) as Hq. rewrite Sd in Hq.
+  destruct (masked (c_dels c) q); [discriminate | reflexivity].
+Qed.
+
+Lemma prefix_of_shorter {A} (q r kp : list A) (k : A) (r2 : list A) :
+  kp = q ++ r -> q = (kp ++ [k]) ++ r2 -> False.
+Proof.
+  intros E1 E2. rewrite E2 in E1. apply (f_equal (@List.length A)) in E1.
+  rewrite !app_length in E1. simpl in E1. lia.
+Qed.
+
+Lemma clear_upto_mark D kp k : clear_upto D kp -> clear_upto (set_path D (kp ++ [k]) mark) kp.
+Proof.
+  intros H q r E.
+  rewrite masked_set_mark; [| destruct kp; discriminate | apply clear_upto_above; assumption].
+  rewrite (H q r E), orb_false_r.
+  destruct (is_prefix (kp ++ [k]) q) eqn:Ep; [|reflexivity].
+  apply is_prefix_iff in Ep as [r2 E2]. exfalso. exact (prefix_of_shorter q r kp k r2 E E2).
+Qed.
+
+Lemma clear_upto_excise D kp k : wf (Node D) = true -> clear_upto D kp ->
+  clear_upto (excise D (kp ++ [k])) kp.
+Proof.
+  intros WD H q r E. rewrite excise_is_del_path.
+  rewrite masked_del_path; [| destruct kp; discriminate | assumption | apply clear_upto_above; assumption].
+  destruct (is_prefix (kp ++ [k]) q) eqn:Ep; [reflexivity | eapply H; eassumption].
+Qed.
+
+Lemma fold_clear S kp : forall ks c J,
+  Forall (level_ok S) (lower c) -> inv S (c_mods c) (c_dels c) J -> clear_upto (c_dels c) kp ->
+  let c' := fold_left (fun c' k => track_del c' kp k) ks c in
+  Forall (level_ok S) (lower c') /\
+  inv S (c_mods c') (c_dels c') (J ++ map (fun k => JDel (kp ++ [k])) ks).
+Proof.
+  induction ks as [|k ks IH]; intros c J HL HI Hc; simpl.
+  - rewrite app_nil_r. split; assumption.
+  - assert (Hp : kp ++ [k] <> []) by (destruct kp; discriminate).
+    assert (Et : track_del c kp k = set_tracking c (c_mods c) (set_path (c_dels c) (kp ++ [k]) mark)).
+    { unfold track_del. rewrite del_mark_set_path by (apply clear_upto_above; assumption). reflexivity. }
+    rewrite Et.
+    replace (J ++ JDel (kp ++ [k]) :: map (fun k0 => JDel (kp ++ [k0])) ks)
+      with ((J ++ [JDel (kp ++ [k])]) ++ map (fun k0 => JDel (kp ++ [k0])) ks)
+      by (rewrite <- app_assoc; reflexivity).
+    apply IH.
+    + rewrite lower_set_tracking. exact HL.
+    + destruct c; simpl in *. apply inv_delete; [assumption | assumption | apply clear_upto_above; assumption].
+    + destruct c; simpl in *. apply clear_upto_mark. assumption.
+Qed.
+
+Definition leaf_kvs (S : tree) (kp : path) (kvs : list (string * tree)) : bool :=
+  forallb (fun kv => match snd kv with Leaf _ => leaf_in S (kp ++ [fst kv]) | Node _ => false end) kvs.
+
+Lemma fold_update S kp : forall kvs c J,
+  leaf_kvs S kp kvs = true ->
+  Forall (level_ok S) (lower c) -> inv S (c_mods c) (c_dels c) J -> clear_upto (c_dels c) kp ->
+  let c' := fold_left (fun c' kv => track_set c' kp (fst kv) (snd kv)) kvs c in
+  Forall (level_ok S) (lower c') /\
+  inv S (c_mods c') (c_dels c') (J ++ map (fun kv => JSet (kp ++ [fst kv]) (snd kv)) kvs).
+Proof.
+  induction kvs as [|[k v] kvs IH]; intros c J Hk HL HI Hc; simpl.
+  - rewrite app_nil_r. split; assumption.
+  - simpl in Hk. apply andb_true_iff in Hk as [Hk1 Hk2].
+    destruct v as [x|vk]; [|discriminate].
+    unfold leaf_in in Hk1. destruct (shape_at (kp ++ [k]) S) as [[y|]|] eqn:ES; try discriminate.
+    replace (J ++ JSet (kp ++ [k]) (Leaf x) :: map (fun kv => JSet (kp ++ [fst kv]) (snd kv)) kvs)
+      with ((J ++ [JSet (kp ++ [k]) (Leaf x)]) ++ map (fun kv => JSet (kp ++ [fst kv]) (snd kv)) kvs)
+      by (rewrite <- app_assoc; reflexivity).
+    apply IH; [assumption | | |].
+    + unfold track_set. rewrite lower_set_tracking. exact HL.
+    + unfold track_set. destruct c; simpl in *.
+      eapply inv_write; [eassumption | eassumption | apply clear_upto_above; assumption].
+    + unfold track_set. destruct c; simpl in *. apply clear_upto_excise; [|assumption].
+      apply (inv_wfD _ _ _ _ HI).
+Qed.
+
 (** * One step *)
 Theorem step_good S fs c J o : is_node S = true -> good S c J -> op_ok S o = true ->
   good S (fst (step fs c o)) (J ++ events_of c o) /\ benign (snd (step fs c o)).
@@ -328,6 +430,18 @@ Proof.
         unfold merged. rewrite Er. simpl. split; [exact Hg | intros e H; discriminate].
       * apply Hsame. intros e H; inversion H; auto.
     + apply Hsame. eapply nav_err_benign; eassumption.
+  - (* Clear *)
+    destruct (nav fl (c_cache c) kp) as [d0|e] eqn:Hn; simpl.
+    + pose proof (nav_clear_upto S c J fl kp d0 HS HG Hn) as Hcu.
+      destruct (keys d0) as [|k0 ks0] eqn:Ek.
+      * simpl. apply Hsame. intros e H; discriminate.
+      * rewrite del_not_blocked by (apply clear_upto_above; assumption).
+        destruct HG as [HL HI HC].
+        destruct (fold_clear S kp (k0 :: ks0) c J HL HI Hcu) as [HL' HI'].
+        destruct (remerge_good S _ _ ONone HS HL' HI') as [d [Er Hg]].
+        cbn [fold_left] in Er, Hg. cbn [fold_left].
+        unfold merged. rewrite Er. simpl. split; [exact Hg | intros e H; discriminate].
+    + apply Hsame. eapply nav_err_benign; eassumption.
   - (* SetDefault *)
     destruct (nav fl (c_cache c) kp) as [d0|e] eqn:Hn; simpl.
     + unfold has. destruct (get k d0) eqn:G; simpl.
@@ -339,6 +453,18 @@ Proof.
         -- rewrite excise_not_blocked by (eapply nav_clear_above; eassumption).
            destruct (step_write S c J fl kp k VNone (OVal (Leaf VNone)) HS HG Hok d0 Hn) as [d [Er Hg]].
            unfold merged. rewrite Er. simpl. split; [exact Hg | intros e H; discriminate].
+    + apply Hsame. eapply nav_err_benign; eassumption.
+  - (* Update *)
+    destruct (nav fl (c_cache c) kp) as [d0|e] eqn:Hn; simpl.
+    + pose proof (nav_clear_upto S c J fl kp d0 HS HG Hn) as Hcu.
+      destruct kvs as [|kv kvs'].
+      * simpl. apply Hsame. intros e H; discriminate.
+      * rewrite excise_not_blocked by (apply clear_upto_above; assumption).
+        destruct HG as [HL HI HC].
+        destruct (fold_update S kp (kv :: kvs') c J Hok HL HI Hcu) as [HL' HI'].
+        destruct (remerge_good S _ _ ONone HS HL' HI') as [d [Er Hg]].
+        cbn [fold_left] in Er, Hg. cbn [fold_left].
+        unfold merged. rewrite Er. simpl. split; [exact Hg | intros e H; discriminate].
     + apply Hsame. eapply nav_err_benign; eassumption.
   - (* Contains *)
     destruct (nav fl (c_cache c) kp) as [d|e] eqn:Hn; simpl; apply Hsame;
